@@ -15,7 +15,38 @@ class SubValueError(ValueError):
     """A subclass of a builtin: 'same type' must mean this class, not its base."""
 
 
-KINDS = ["value", "noargs", "custom", "subclass"]
+class QuietError(Exception):
+    """A custom class whose constructor takes no argument at all: an exception "without args" that cannot be rebuilt from
+    rewritten args (`QuietError("text")` is a TypeError) — what pickling across a process pool does."""
+
+    def __init__(self):
+        super().__init__()
+
+
+class UnpicklableArgsError(Exception):
+    """An exception whose args hold an object that cannot be pickled (a lock).  OUTSIDE the property's quantifier
+    ("custom picklable classes"): in-process it behaves like any exception; across a process pool the type is lost."""
+
+
+class UserAbort(BaseException):
+    """A BaseException that is not an Exception (like KeyboardInterrupt / SystemExit).  OUTSIDE the property's quantifier:
+    pipefunc's `except Exception` sites do not see it — it surfaces unchanged, without note and without snapshot."""
+
+
+class Unpicklable:
+    """args element of `UnpicklableArgsError`: equal to every other instance, refuses to be pickled"""
+
+    def __reduce__(self):
+        raise TypeError("cannot pickle 'Unpicklable' object")
+
+    def __repr__(self):
+        return "Unpicklable()"
+
+
+# the kinds of the property's quantifier (with / without args, custom picklable classes) …
+KINDS = ["value", "noargs", "custom", "subclass", "quiet"]
+# … and kinds outside it, whose observed behaviour is modelled / counted (see the module docstring of props/c13.py)
+OUTSIDE_KINDS = ["base", "unpicklable"]
 
 
 def make(kind: str, tag: int) -> Exception:
@@ -27,6 +58,12 @@ def make(kind: str, tag: int) -> Exception:
         return CustomError(tag, "detail")
     if kind == "subclass":
         return SubValueError("sub", tag)
+    if kind == "quiet":
+        return QuietError()
+    if kind == "base":
+        return UserAbort("abort", tag)
+    if kind == "unpicklable":
+        return UnpicklableArgsError("lock", tag, Unpicklable())
     raise AssertionError(kind)
 
 
@@ -38,4 +75,31 @@ def clsname(e: BaseException) -> str:
 def model_exn(kind: str, tag: int) -> dict:
     """The same exception as the Lean driver's `Exn` JSON."""
     e = make(kind, tag)
-    return {"cls": clsname(e), "args": [a if isinstance(a, int) else {"s": a} for a in e.args]}
+    x = {"cls": clsname(e), "args": [a if isinstance(a, int) else {"s": a} if isinstance(a, str) else {"s": "$opaque:" + type(a).__name__} for a in e.args]}
+    if not isinstance(e, Exception):
+        x["base"] = True          # not caught by `except Exception`: the model erases note and snapshot
+    return x
+
+
+def enc_arg(a):
+    """encoding of one `e.args` element on the implementation side (agrees with `model_exn`)"""
+    import terms
+    j = terms.enc(a)
+    if isinstance(j, dict) and "opaque" in j:
+        return {"s": "$opaque:" + j["opaque"]}
+    return j
+
+
+class RaisingPicker:
+    """An `output_picker` (user code that is NOT the wrapped function) that raises for the outputs of the invocations a hook
+    names; otherwise picks the output by position.  Picklable by reference."""
+
+    def __init__(self, outputs, hook):
+        self.outputs = list(outputs)
+        self.hook = hook
+
+    def __call__(self, out, name):
+        exc = self.hook.for_picker(out, name)
+        if exc is not None:
+            raise exc
+        return out[self.outputs.index(name)]
